@@ -24,7 +24,7 @@ import (
 )
 
 type SessOp struct {
-	Kind    string // info | messages | metadata | attachment
+	Kind    string // info | messages | scan (= messages with UsingIndex(false)) | metadata | attachment
 	Order   int    // messages: 0 default (file order), 1 log time, 2 reverse log time
 	Topics  []string
 	Window  bool
@@ -42,11 +42,11 @@ type SessCase struct {
 }
 
 func genSessOp(t *rapid.T, w *wl.Workload, flavor string, allowOrders bool) SessOp {
-	kind := rapid.SampledFrom([]string{"messages", "messages", "messages", "info", "metadata", "attachment"}).Draw(t, "op")
+	kind := rapid.SampledFrom([]string{"messages", "messages", "messages", "scan", "info", "metadata", "attachment"}).Draw(t, "op")
 	op := SessOp{Kind: kind, Partial: -1}
 	switch kind {
-	case "messages":
-		if allowOrders {
+	case "messages", "scan":
+		if allowOrders && kind == "messages" {
 			switch flavor {
 			case "C03":
 				op.Order = rapid.IntRange(1, 2).Draw(t, "order")
@@ -100,14 +100,10 @@ func genSession(flavor string) func(t *rapid.T) SessCase {
 				c.Ops = append(c.Ops, genSessOp(t, &w, flavor, true))
 			}
 		} else {
-			// a file the index cannot serve: any number of calls that do not read messages, then one
-			// message read with the default (index-preferring) options - the fall-back-or-error clause
+			// a file the index cannot serve: message reads with the default (index-preferring) options
+			// fall under the fall-back-or-error clause, whatever was called before
 			for i := 0; i < n-1; i++ {
-				op := genSessOp(t, &w, flavor, false)
-				if op.Kind == "messages" {
-					op = SessOp{Kind: "info", Partial: -1}
-				}
-				c.Ops = append(c.Ops, op)
+				c.Ops = append(c.Ops, genSessOp(t, &w, flavor, false))
 			}
 			op := genSessOp(t, &w, flavor, false)
 			for op.Kind != "messages" {
@@ -121,6 +117,9 @@ func genSession(flavor string) func(t *rapid.T) SessCase {
 }
 
 func sessOpts(op SessOp) (opts []mcap.ReadOpt, s, e uint64, endOpen bool, order mcap.ReadOrder) {
+	if op.Kind == "scan" {
+		opts = append(opts, mcap.UsingIndex(false))
+	}
 	switch op.Order {
 	case 1:
 		order = mcap.LogTimeOrder
@@ -253,17 +252,18 @@ func checkSession(prop string) func(c SessCase, st *stats.Collector) error {
 					}
 				}
 				history += fmt.Sprintf(" GetAttachmentReader(#%d)", j)
-			case "messages":
+			case "messages", "scan":
 				opts, s, e, endOpen, order := sessOpts(op)
-				label := fmt.Sprintf("Messages(order=%d topics=%v %s [%d,%d) partial=%d) as call #%d after%s", op.Order, op.Topics, exprNames[op.Expr], op.S, op.E, op.Partial, i, history)
-				history += fmt.Sprintf(" Messages(order=%d,topics=%v,window=%v,partial=%d)", op.Order, op.Topics, op.Window, op.Partial)
+				label := fmt.Sprintf(op.Kind+": Messages(order=%d topics=%v %s [%d,%d) partial=%d) as call #%d after%s", op.Order, op.Topics, exprNames[op.Expr], op.S, op.E, op.Partial, i, history)
+				history += fmt.Sprintf(" %s(order=%d,topics=%v,window=%v,partial=%d)", op.Kind, op.Order, op.Topics, op.Window, op.Partial)
 				msgReads++
 				if op.Window || len(op.Topics) > 0 {
 					restricted++
 				}
+				strict := indexed || op.Kind == "scan"
 				it, err := rd.Messages(opts...)
 				if err != nil {
-					if !indexed {
+					if !strict {
 						st.Note("non-indexable:Messages-error")
 						continue
 					}
@@ -286,7 +286,7 @@ func checkSession(prop string) func(c SessCase, st *stats.Collector) error {
 					items = append(items, mc.Triple{S: mc.FromSchema(sc), C: mc.FromChannel(ch), M: mc.FromMessage(m)})
 				}
 				if rerr != nil && !errors.Is(rerr, io.EOF) {
-					if !indexed {
+					if !strict {
 						st.Note("non-indexable:Next-error")
 						// what came before the error must still be a prefix of the scan's selection
 						want := wl.Select(all, op.Topics, s, e, endOpen)
